@@ -14,6 +14,7 @@ import (
 	"runtime/debug"
 	"sort"
 	"sync"
+	_ "time/tzdata" // so that TZ works whatever the host has installed
 )
 
 // Finding is one observed violation candidate.
